@@ -79,7 +79,7 @@ META = {
                 "partitions/heals, clean restarts and extra re-index calls between seeded metadata operations, including concurrent "
                 "writes by partitioned devices. Oracles at quiescence: equal entry sets => equal digests of every public getter; "
                 "digest unchanged by reopen and by re-index; for causally ordered histories digest == fold model over the decoded "
-                "entries; entry sets converge at the anti-entropy fixpoint and nothing appended is lost.",
+                "entries; entry sets converge at the anti-entropy fixpoint and nothing appended is lost. A second scenario runs multi-member and contact groups (members, devices, admins; reference = set insertion over the decoded entries). Part 2 interleaves 2-3 concurrent writers of one device at the lock operations of the metadata index (instrumented) and requires the state at quiescence to equal the state after one more indexing.",
         "design_ref": "section 5, C04; sections 3.1-3.6",
         "note": "members/devices/admins of the account group are compared between replicas but not modelled (no activation in this "
                 "scenario); multi-member and contact group histories are exercised by C05/C12; reactions of orbit-db goroutines "
@@ -101,7 +101,7 @@ META = {
         "text": "Macro simulation on two real replicas: a writer appends up to 12 metadata/message entries, the simulator delivers them "
                 "to a second replica entry by entry, in one batch or mixed; then every (since, until, reverse) combination over "
                 "all entries, the open end and an unknown identifier is listed through the real ListEvents of both stores on both "
-                "replicas and compared with the inclusive slice of the causal order (reversed on request) or the invalid-range error.",
+                "replicas and compared with the inclusive slice of the causal order (reversed on request) or the invalid-range error. The same ranges are listed again through the service's GroupMetadataList / GroupMessageList streams (until_now for the open end); in one case of three a second replica writes concurrently and the reference order is the full listing itself (a linear extension of the causal order, equal on both replicas).",
         "design_ref": "section 5, C13",
         "note": "single-writer (causally totally ordered) logs, as the statement requires; the RPC wrappers GroupMetadataList/"
                 "GroupMessageList with until_now are not driven (they forward the three parameters unchanged)",
@@ -125,7 +125,7 @@ META = {
                 "under the sender's genuine message key (which a member can derive) with B's / another / the original / random / "
                 "empty signature. Oracle: the set of (group, device, counter, payload) tuples recorded when SealEnvelope returned; "
                 "every successful open must be exactly such a tuple, alterations inside authenticated regions must fail, every "
-                "authentic envelope must open.",
+                "authentic envelope must open. Part 2 observes the receiver's GroupMessageEvent emissions: sender, receiver and a Byzantine member replicate the message log over the simulated network, the Byzantine member appends altered copies and forgeries as log entries of its own (also under the receiver's own message key), the simulator chooses what arrives first; nothing crafted may be delivered and every genuine message exactly once.",
         "design_ref": "section 5, C01; appendix B.5",
         "note": "the bit-flip sweep is a pure-input clause run as a seeded enumeration; the simulation part is the three-party knowledge "
                 "model and attempts on clones of the receiver's durable state; GroupMessageEvent emission is covered by C08",
@@ -137,7 +137,7 @@ META = {
                 "and beyond the message-key window and the reference window (both from {1,2,3,100}), receiver restarts, bit-flipped "
                 "payloads and unknown group references. Soundness on every attempt (original payload, sender, counter, group; "
                 "AlreadyReceived iff the log path had opened the entry), completeness for messages the ratchet model makes "
-                "openable and whose counter is strictly inside the reference window, and non-interference of the two paths.",
+                "openable and whose counter is strictly inside the reference window, and non-interference of the two paths. Part 2 observes the service replies: senders and a receiver on the simulated network, push payloads produced by OutOfStoreSeal from the sender's log and opened by the receiver's OutOfStoreReceive before, after or without the log delivery; the AlreadyReceived flag must equal 'the log path delivered that entry' and every message is delivered exactly once through the log path.",
         "design_ref": "section 5, C14; appendix B.1",
         "note": "window-edge counters are don't-care for completeness (the statement does not fix the edge convention); the service-level "
                 "OutOfStoreSeal/OutOfStoreReceive wrappers are not driven",
@@ -159,7 +159,7 @@ META = {
                 "are attempted on used stores and with malformed keys. After every step the cross-store invariants of the "
                 "statement are evaluated over all stores (contact-group symmetry and separation, member key shared by the devices "
                 "of an account and distinct across accounts, distinct device keys, account identity preserved by import, refused "
-                "imports leave the store byte-identical).",
+                "imports leave the store byte-identical). Part 2 runs 2-3 concurrent FIRST uses of a brand-new store under the cooperative scheduler (pkg/secretstore instrumented, SimDisk accesses as points): all must be handed the identities the store answers afterwards and after a restart.",
         "design_ref": "section 5, C11",
         "note": "the algebra of the derivations is a pure-input clause; the simulated part is order of first use, caching, restart, "
                 "cache loss and refused imports. A torn import (crash between its two writes) is not asserted: the statement does not cover it",
@@ -186,7 +186,7 @@ META = {
                 "points and 5 non-canonical encodings, wrong target, foreign key types, cross-session replay of any recorded frame. "
                 "Oracle = matching conversations: a responder reporting key K had, in this very session, a peer holding K's private "
                 "half (an honest requester instance with a matching transcript, or the adversary with its own key); a succeeding "
-                "requester had a matching responder instance of its target; faithful relay completes on both sides.",
+                "requester had a matching responder instance of its target; faithful relay completes on both sides. Part 2 observes the second observation point: the real contactRequestsManager.handleIncomingRequest of a responder node with its account group open, against the real requester side over a simulated stream routed through the adversary (faults on handshake frames, contact message altered in flight, adversary as requester, replayed frames); an incoming-request event may be appended only for the key whose holder took part in that very session.",
         "design_ref": "section 5, C06; appendix B.5",
         "note": "frame-level transport (byte-level framing is C18); handleIncomingRequest and the contact message that follows the handshake "
                 "are not driven; small-order Ed25519 identity keys are outside the catalogue",
@@ -199,7 +199,7 @@ META = {
                 "account then acts under derived member/device keys. (b) A replication node (real WeshOrbitDB in replication mode "
                 "holding only FilterGroupForReplication's descriptor) joins the simulated network of a random group session: it must "
                 "use the same log addresses, hold every entry at the anti-entropy fixpoint, and open no metadata envelope, message "
-                "header or message payload of the session.",
+                "header or message payload of the session. Part 2 drives the service's MultiMemberGroupJoin / ActivateGroup / GroupInfo with seeded sessions of altered and genuine invitations: whatever was refused before, a group joined by its genuine invitation is the invited group and the account acts in it under the derived keys. Groups of all types are used in (b).",
         "design_ref": "section 5, C12",
         "note": "(a) is a pure-input clause run as a seeded enumeration; flips landing in fields outside the statement (link key "
                 "signature) are don't-care; the replication *service* (gRPC server, token auth) is not part of the simulation",
